@@ -19,7 +19,8 @@ RULE = ('all 65536 int16 values through int16_samples_to_float32 / float_samples
         'explicit sample lists at the five rates with crop offsets/lengths and repeat durations placed on, one/two '
         'ulps around and half-way between sample boundaries and multiples of the signal length, shorter and longer '
         'than the signal, zero, tiny, negative and huge; stereo pairs of every length relation and dtype relation; '
-        'mono int16 signals through the scipy WAV container; a spy run of the real repeat arithmetic for durations '
+        'mono int16 signals through the scipy WAV container, and the "decode twice" discipline (decode, modify the result in place, '
+        'decode / crop / jitter / normalize the same bytes again: nothing may change); a spy run of the real repeat arithmetic for durations '
         'far too long to allocate. non-trivial = the implementation returned a value (not an exception) that is not '
         'the whole input unchanged; distinct by canonical input')
 ASSUMPTIONS = ['numpy float32 division/multiplication are IEEE-754 correctly rounded (tied exhaustively for the division on all '
@@ -212,6 +213,13 @@ def corpus():
     # wav
     out.append({'op': 'wav', 'input': [[-32768, -32767, -1, 0, 1, 32766, 32767], 16000]})
     out.append({'op': 'wav', 'input': [[], 8000]})
+    # decode twice: a later decode of the same bytes must not see what the caller did to an earlier result
+    k = 0
+    for rate in RATES:
+        for helper in range(len(WAV_HELPERS)):
+            out.append({'op': 'wav_twice', 'input': [[-32768, -1, 0, 32767, 12345, -4242, 7, 5], rate, k % 3, helper]})
+            k += 1
+    out.append({'op': 'wav_twice', 'input': [[], 16000, 0, 0]})
     return out
 
 
@@ -283,6 +291,10 @@ def cases(rng, tier, n=None):
     for _ in range(8 * mul):
         k = rng.choice([1, 10, 100, 300])
         out.append({'op': 'wav', 'input': [[rng.randint(-32768, 32767) for _ in range(k)], rng.choice(RATES)]})
+    for _ in range(12 * mul):
+        k = rng.choice([1, 2, 10, 100, 2000])
+        out.append({'op': 'wav_twice', 'input': [[rng.randint(-32768, 32767) for _ in range(k)], rng.choice(RATES),
+                                                 rng.randrange(3), rng.randrange(len(WAV_HELPERS))]})
     for _ in range(300 * mul):     # real repeat arithmetic at sizes that cannot be allocated (spy)
         rate = rng.choice(RATES)
         ln = rng.randint(1, MAXLEN)
@@ -371,10 +383,83 @@ def _spy_repeat(ln, rate, d):
     return min(stub.k * ln, r[2])    # the observable: length of the result (not how many copies were made)
 
 
+WAV_HELPERS = ['decode', 'crop', 'jitter', 'normalize']
+WAV_MUTATIONS = ['scale', 'zero', 'reverse']
+
+
+def _wav_helper(aio, helper, wav, rate, n):
+    """bytes -> canonical observable of one wav helper that decodes internally"""
+    np = _np()
+    if helper == 'decode':
+        return aio.wav_data_to_samples(wav, rate).copy()
+    if helper == 'crop':
+        return aio.crop_wav_data(wav, rate, 1.0 / rate, (n + 3.0) / rate)
+    if helper == 'jitter':
+        return aio.jitter_wav_data(wav, rate, 2.0 / rate)
+    if helper == 'normalize':
+        return aio.normalize_wav_data(wav, rate)
+    raise ValueError(helper)
+
+
+def _same(u, v):
+    np = _np()
+    if isinstance(u, bytes) or isinstance(v, bytes):
+        return u == v
+    return u.dtype == v.dtype and u.shape == v.shape and np.array_equal(u.view(np.uint32), v.view(np.uint32))
+
+
+def _decode_twice(xs, rate, mutation, helper):
+    """The "decode twice" discipline: every decode of the same WAV bytes returns the stored signal, whatever
+    the caller did to an array returned by an earlier decode.  Returns None or a failure dict."""
+    np = _np()
+    aio = _aio()
+    x = np.array(xs, dtype=np.int16)
+    y = aio.int16_samples_to_float32(x)
+    wav = aio.samples_to_wav_data(y.copy(), rate)
+    info = {'n': len(xs), 'rate': rate, 'mutation': mutation, 'helper': helper}
+    ref = _wav_helper(aio, helper, wav, rate, len(xs))          # before anything was modified
+    a1 = aio.wav_data_to_samples(wav, rate)
+    if not _same(a1, y):
+        again = aio.wav_data_to_samples(wav, rate)
+        if a1.size and np.shares_memory(a1, again):
+            return dict(info, kind='decoded-samples-shared-between-calls',
+                        how='the decode returns a buffer kept from an earlier decode of the same bytes in this process, '
+                            'which its caller had modified')
+        return dict(info, kind='wav-roundtrip-not-identity')
+    try:                                                          # the caller works on its samples in place
+        if mutation == 'scale':
+            a1 *= np.float32(0.5)
+            a1 += np.float32(0.25)
+        elif mutation == 'zero':
+            a1[...] = np.float32(0.125)
+        else:
+            a1[...] = a1[::-1].copy() + np.float32(0.5)
+    except ValueError:
+        pass                                                      # read-only result: nothing can be shared
+    a2 = aio.wav_data_to_samples(wav, rate)
+    if np.shares_memory(a1, a2) and a1.size:
+        return dict(info, kind='decoded-samples-shared-between-calls', how='second decode returns the same buffer')
+    if not _same(a2, y):
+        bad = int(np.nonzero(a2.view(np.uint32) != y.view(np.uint32))[0][0]) if a2.shape == y.shape else -1
+        return dict(info, kind='decoded-samples-shared-between-calls', how='second decode differs from the stored signal',
+                    index=bad)
+    out = _wav_helper(aio, helper, wav, rate, len(xs))
+    if not _same(out, ref):
+        return dict(info, kind='decoded-samples-shared-between-calls',
+                    how='%s of the same bytes changed after the caller modified its decoded samples' % helper)
+    if helper == 'decode' and not _same(out, y):
+        return dict(info, kind='wav-roundtrip-not-identity')
+    return None
+
+
 def impl(case):
     np = _np()
     aio = _aio()
     op, a = case['op'], case['input']
+    if op == 'wav_twice':
+        xs, rate, mutation, helper = a
+        r = _call(lambda: _decode_twice(xs, rate, WAV_MUTATIONS[mutation], WAV_HELPERS[helper]))
+        return r if r[0] != 'OK' else ['OK', 'stable' if r[1] is None else r[1]['kind']]
     if op == 'pcm':
         lo, n = a
         x = np.arange(lo, lo + n).astype(np.int16)
@@ -453,6 +538,7 @@ def model_input(case):
         return [9, a[0]]
     if op == 'rep_len':
         return [10] + a
+    return None          # wav_twice: exercised on the implementation only (the scipy container is not modelled)
 
 
 def _res(m, f=lambda x: x):
@@ -583,6 +669,11 @@ def oracle(case, io):
             if o[i][0] != wl or o[i][1] != wr:
                 return {'kind': 'stereo-wrong-sample', 'index': i, 'lens': [len(l), len(r)]}
         return None
+    if op == 'wav_twice':
+        xs, rate, mutation, helper = a
+        if io[0] != 'OK':
+            return {'kind': 'wav-raises', 'exc': io[1], 'n': len(xs), 'rate': rate, 'helper': WAV_HELPERS[helper]}
+        return _decode_twice(xs, rate, WAV_MUTATIONS[mutation], WAV_HELPERS[helper])
     if op == 'wav':
         xs, rate = a
         if io[0] != 'OK':
@@ -618,6 +709,8 @@ def nontrivial(case, io):
         return len(a[2]) != len(a[3])
     if op == 'wav':
         return len(a[0]) > 0
+    if op == 'wav_twice':
+        return len(a[0]) > 0
     if op == 'rep_len':
         return io[1] > a[0]
     return True
@@ -642,6 +735,11 @@ def shrink(case):
             yield {'op': op, 'input': [dl, dr, l[:-1], r]}
         if r:
             yield {'op': op, 'input': [dl, dr, l, r[:-1]]}
+    if op == 'wav_twice':
+        xs = a[0]
+        if len(xs) > 1:
+            yield {'op': op, 'input': [xs[:len(xs) // 2]] + a[1:]}
+            yield {'op': op, 'input': [xs[len(xs) // 2:]] + a[1:]}
     if op == 'wav':
         xs, rate = a
         if len(xs) > 1:
